@@ -114,7 +114,7 @@ def main(tier):
             "spaces": spaces,
         }
         c.assumptions = ["texts beyond the length bounds are represented only by repository files and their edits",
-                         "hang detection: 10 s per parse, 60 s per semantic analysis"]
+                         "hang detection: 120 CPU-seconds of the worker thread per parsed/formatted input (3600 s wall), 60 s per semantic analysis"]
         return c.finish()
     finally:
         shutil.rmtree(scratch, ignore_errors=True)
